@@ -240,6 +240,12 @@ def run(ctx, replay=None):
                 rng.shuffle(todo)
                 todo = todo[:quick_n]
             todo += [(vm, "bogus", "customize", "net1", 1), (vm, "install", "nosuchstate", "net1", 2)]
+            # states that exist in the suite but not in this vm's graph (another vm's or another OS's setup): as unknown to
+            # this vm as a made-up name, and accepted by the parser
+            foreign = sorted({s for other in ("vm1", "vm2", "vm3") if other != vm for s in state_graph(other)[0]
+                              if not s.startswith("leaf:") and s not in dag})
+            for fs in (foreign if ctx.thorough else rng.sample(foreign, min(2, len(foreign)))):
+                todo.append((vm, fs, rng.choice([s for s in states if s != "install"] or states), rng.choice(["net1", "net1 net2"]), 3))
         with concurrent.futures.ProcessPoolExecutor(max_workers=12) as ex:
             outs = list(ex.map(run_update, todo))
         I = Interner()
